@@ -24,3 +24,43 @@ def bond_to_smiles(bond: 'DirectedBond'):
     ensures(result == ("=" if bond.order == 2 else "#" if bond.order == 3 else
                        (bond.stereo if (bond.stereo == "/" or bond.stereo == "\\") else "")),
             tag="C03,C04:symbol-of-bond")
+
+
+ORGANIC_DOC = ("B", "C", "N", "O", "S", "P", "F", "Cl", "Br", "I")
+
+
+@spec
+def atom_fields_ok(atom):
+    return (typed(atom, 'Atom') and typed(atom.element, 'str') and typed(atom.is_aromatic, 'bool')
+            and typed(atom.isotope, 'int|None') and typed(atom.chirality, 'str|None')
+            and typed(atom.h_count, 'int|None') and typed(atom.charge, 'int')
+            # organic-subset atoms (h_count None = implicit hydrogens) carry no other specification
+            and implies(typed(atom.h_count, 'None'),
+                        typed(atom.isotope, 'None') and typed(atom.chirality, 'None') and atom.charge == 0))
+
+
+@spec
+def signed(n):
+    return ("+" + str(n)) if n >= 0 else ("-" + str(0 - n))
+
+
+@spec
+def atom_text(atom, brackets):
+    # the standard spelling of an atom (used for SELFIES symbols and for output SMILES alike)
+    return (atom.element if (typed(atom.isotope, 'None') and typed(atom.chirality, 'None')
+                             and typed(atom.h_count, 'None') and atom.charge == 0)
+            else (("[" if brackets else "")
+                  + ("" if typed(atom.isotope, 'None') else str(atom.isotope))
+                  + atom.element
+                  + ("" if typed(atom.chirality, 'None') else atom.chirality)
+                  + (("H" + str(atom.h_count)) if atom.h_count != 0
+                     else ("H0" if (typed(atom.isotope, 'None') and typed(atom.chirality, 'None') and atom.charge == 0
+                                    and atom.element in ORGANIC_DOC) else ""))
+                  + ("" if atom.charge == 0 else signed(atom.charge))
+                  + ("]" if brackets else "")))
+
+
+@contract("selfies/utils/smiles_utils.py::atom_to_smiles", props=["C10", "C03", "C08", "C09"])
+def atom_to_smiles(atom: 'Atom', brackets: bool = True):
+    requires(atom_fields_ok(atom) and not atom.is_aromatic)
+    ensures(typed(result, 'str') and result == atom_text(atom, brackets), tag="C10:standard-atom-spelling")
